@@ -188,7 +188,8 @@ class C07:
         for i in range(n_env):
             for j in range(n_lrn):
                 rows_by[f"T{i}/l{j}"] = gen_rows(rng, homogeneous)
-        vals = [["rows", {"rows_by_env": rows_by, "params": gen_params(rng), "tag": "rv", "reuse_list": rng.random() < 0.3, "readonly_params": rng.random() < 0.1}]]
+        vals = [["rows", {"rows_by_env": rows_by, "params": gen_params(rng), "tag": "rv", "reuse_list": rng.random() < 0.3, "readonly_params": rng.random() < 0.1,
+                          "single_mapping": rng.random() < 0.15}]]
         if rng.random() < 0.3:
             vals.append(["tap", {"inner": ["seqcb", {"record": ["reward", "action", "probability", "context", "actions", "rewards"]}], "tag": "tap"}])
             # (not generated: a grounded environment under the ordinary evaluator.  SequentialCB copies the interaction's 'feedbacks' function into
@@ -260,6 +261,21 @@ class C07:
                 results["from_file(plain)"] = guarded("Result.from_file(plain)", lambda: Result.from_file(fb))
             if res_c is not None:
                 results["from_file(.gz)"] = guarded("Result.from_file(.gz)", lambda: Result.from_file(fc))
+            if res_b is not None and cfg.get("readonly_file", True):
+                # the finished log on a medium this user may only read (an archive, a shared directory, a read-only mount): loading it must
+                # not ask for more than the right to read
+                import coba.pipes.sources as S
+
+                def ro_open(file, mode="r", *a_, **k_):
+                    if str(file) == str(fb) and any(c in mode for c in "+wax"):
+                        raise PermissionError(13, "Permission denied (read-only file)")
+                    return open(file, mode, *a_, **k_)
+                S.open = ro_open
+                try:
+                    out["counters"]["fault.result_file_is_read_only"] = 1
+                    results["from_file(read-only plain)"] = guarded("Result.from_file of a read-only file", lambda: Result.from_file(fb))
+                finally:
+                    del S.open
             # (d) interrupted at a record boundary (after the experiment record) and resumed
             if res_b is not None:
                 data = open(fb, "rb").read()
